@@ -10,6 +10,7 @@ import (
 	"sort"
 	"strings"
 	"sync/atomic"
+	"time"
 
 	"github.com/tyler-sommer/stick"
 	"github.com/tyler-sommer/stick/parse"
@@ -26,6 +27,9 @@ type c19 struct {
 	inj   []string // corpus templates with one syntax error injected at a fragment boundary
 	nInj  int      // histories covering inj exhaustively
 	nRand int
+	// fragment sequences
+	nSeq, nSeqHist int
+	seqOffs        []int
 }
 
 func init() { fw.Register("C19", func() fw.Property { return &c19{} }) }
@@ -49,9 +53,19 @@ func (p *c19) Init(tier string, seed int64) {
 	}
 	p.nInj = (len(p.inj) + c19PerHistory - 1) / c19PerHistory
 	p.nRand = p.pick(600, 20000)
+	// bounded-exhaustive fragment sequences: where exactly the input ends decides whether the tokeniser is
+	// still owed a reader when the parser gives up
+	nf := len(gen.Fragments)
+	for l := 1; l <= p.pick(3, 4); l++ {
+		p.seqOffs = append(p.seqOffs, p.nSeq)
+		p.nSeq += gen.Pow(nf, l)
+	}
+	p.nSeqHist = (p.nSeq + c19SeqPerHistory - 1) / c19SeqPerHistory
 }
 
-func (p *c19) N() int { return p.nInj + p.nRand }
+const c19SeqPerHistory = 200
+
+func (p *c19) N() int { return p.nInj + p.nRand + p.nSeqHist }
 
 type c19call struct {
 	loader string // string | memory | fs
@@ -78,6 +92,14 @@ func (p *c19) history(i int) c19history {
 				c.name = p.inj[k]
 			}
 			h.calls = append(h.calls, c)
+		}
+		return h
+	}
+	if i >= p.nInj+p.nRand {
+		j0 := (i - p.nInj - p.nRand) * c19SeqPerHistory
+		for j := j0; j < j0+c19SeqPerHistory && j < p.nSeq; j++ {
+			k := searchOffs(p.seqOffs, j)
+			h.calls = append(h.calls, c19call{loader: "string", kind: "fragment-sequence", name: gen.FragSeq(j-p.seqOffs[k], k+1), parse: j%5 != 0, twig: j%7 == 0})
 		}
 		return h
 	}
@@ -151,6 +173,12 @@ func (p *c19) Run(i int) (res fw.Result) {
 		}
 		if err := os.WriteFile(filepath.Join(dir, n), []byte(s), 0o644); err != nil {
 			panic(err)
+		}
+		if i%2 == 1 {
+			// files that were not written a moment ago (whatever is remembered about a file between two loads
+			// is usually tied to its modification time)
+			old := time.Now().Add(-time.Duration(1+i%72) * time.Hour)
+			os.Chtimes(filepath.Join(dir, n), old, old)
 		}
 	}
 	mk := func(loader stick.Loader, tw bool) *stick.Env {
@@ -241,7 +269,7 @@ func (p *c19) Run(i int) (res fw.Result) {
 	if failing > 0 {
 		sort.Strings(outcomes)
 		sig := strings.Join(uniqStrings(outcomes), ",")
-		if i < p.nInj {
+		if i < p.nInj || i >= p.nInj+p.nRand {
 			res.UniqueNT = 1
 		} else {
 			res.Sigs = append(res.Sigs, fmt.Sprintf("%s#%d", sig, len(h.calls)))
@@ -261,7 +289,7 @@ func uniqStrings(xs []string) []string {
 }
 
 func (p *c19) Rule() string {
-	return "histories of calls, census after EVERY call: (1) exhaustive: every corpus template with one syntax error (illegal character, unknown tag, surplus literal, stray delimiter, lone quote or parenthesis) injected at every fragment boundary (every third boundary in quick), 25 calls per history, rotating over the string, memory and filesystem loaders, Parse and Execute, core and Twig environments - so the parser stops with 0..n tokens still to come; (2) seeded histories of 1..50 (quick) / 1..200 (thorough) calls over generated programs (include/embed/extends/import across files, so one call opens several files), templates that fail in the tokeniser or in the parser, templates that include/extend/import a broken template, run-time failures, missing templates, and names that can be opened but not read (a directory, the empty name), directly and through include/extends. The filesystem loader works on a directory the check creates and removes. Monitors: goroutine census (runtime.Stack(all), goroutines with a library frame, by state and top frame) after a bounded settling loop, the live-tokeniser gauge of the verif hook, and /proc/self/fd compared with the set before the history, with garbage collection disabled during the history so that a finalizer cannot hide a missing Close. Non-trivial = history with at least one failing call; injected histories are distinct by construction, random ones by (loader:outcome set, length)."
+	return "histories of calls, census after EVERY call: (1) exhaustive: every corpus template with one syntax error (illegal character, unknown tag, surplus literal, stray delimiter, lone quote or parenthesis) injected at every fragment boundary (every third boundary in quick), 25 calls per history, rotating over the string, memory and filesystem loaders, Parse and Execute, core and Twig environments - so the parser stops with 0..n tokens still to come; (2) seeded histories of 1..50 (quick) / 1..200 (thorough) calls over generated programs (include/embed/extends/import across files, so one call opens several files), templates that fail in the tokeniser or in the parser, templates that include/extend/import a broken template, run-time failures, missing templates, and names that can be opened but not read (a directory, the empty name), directly and through include/extends. (3) every sequence of <=3 (quick) / <=4 (thorough) fragments of the 26-fragment hostile alphabet through the string loader, 200 per history. The filesystem loader works on a directory the check creates and removes; in every other history the files carry modification times hours in the past, and one loader instance serves the whole history, so files are loaded repeatedly. Monitors: goroutine census (runtime.Stack(all), goroutines with a library frame, by state and top frame) after a bounded settling loop, the live-tokeniser gauge of the verif hook, and /proc/self/fd compared with the set before the history, with garbage collection disabled during the history so that a finalizer cannot hide a missing Close. Non-trivial = history with at least one failing call; injected histories are distinct by construction, random ones by (loader:outcome set, length)."
 }
 
 func (p *c19) Assumptions() []string {
